@@ -1,7 +1,7 @@
 package batched
 
 func VerifC03_batched_request() {
-	n := vBound("C03_batched_req_len", 600, 1400)
+	n := vBound("C03_batched_req_len", 600, 1100)
 	vUnwind(n/51 + 3)
 	b := vBytes("b", 0, n)
 	r := &BatchedTokenRequest{}
